@@ -360,7 +360,7 @@ def c05_after_cross_app_failure(params, tier):
     return [("c05_after_cross_app_failure:%s" % sorted(p.items()), b.h, U if p["usage"] else NU, {})]
 
 
-@family("C01", "C02", "C08", "C13", "C15")
+@family("C01", "C02", "C08", "C09", "C13", "C15")
 def after_cross_app_failure(params, tier):
     """A client of another app names the id of a live mailbox (fails internally: known finding F8, owned by C06/C17).
     Whatever that failed command leaves behind - it runs statements before it fails, and the next commit of anybody
